@@ -239,7 +239,7 @@ class Parser:
             return int(arg)
         if re.search(r"^[+-]?(\d+(\.\d*)?|\.\d+)$", arg):  # float
             return float(arg)
-        if re.search(r"^[+-]?\d*(\.\d*)?([eE]?[-+]?\d+)?$", arg):  # float written as fpn like 1.e-03
+        if re.search(r"^[+-]?(\d+(\.\d*)?|\.\d+)([eE][-+]?\d+)?$", arg):  # float written as fpn like 1.e-03
             return float(arg)
 
         # Booleans and None types that are masked as strings
